@@ -3,8 +3,19 @@ strings, with stand-ins for the awkward.types classes (the real ones live in the
 built here).  The stand-ins have the constructor signatures of src/python/types.cpp and a __str__ that follows the
 C++ printers in src/libawkward/type/*.cpp.
 
-usage: larkvote.py REPO   < lines of hex-encoded UTF-8/latin-1 type strings   > one JSON object per line
-  {"ok": true, "str": ..., "same": bool, "cls": top class, "arraytype": bool} | {"ok": false, "exc": class name}
+The constructors also raise where the pybind11 ones do for what the grammar can hand them: PrimitiveType on a name
+util::name_to_dtype does not know (int128 / uint128 are in the grammar's TYPE terminal), RegularType / ArrayType on a size
+that is not a Python int within int64_t (pybind11's integer caster refuses floats and overflowing ints: TypeError),
+RecordType on keys of another length than types.
+
+usage: larkvote.py REPO   < lines of (optionally x-prefixed) hex-encoded UTF-8 type strings   > one JSON object per line
+  {"ll": R, "hl": R}, R = {"ok": true, "str": ..., "same": bool, "cls": top class, "arraytype": bool, "tree": T}
+                        | {"ok": false, "exc": class name}
+  T = the object tree (for the comparison with the Rocq model of the parser, c17/coq/Lark.v); bytes as hex:
+      ["array", "n", T] | ["num", P, ts, dtype] | ["unk", P, ts] | ["list", P, ts, T] | ["reg", P, ts, "n", T]
+      | ["opt", P, ts, T] | ["rec", P, ts, null | [key...], [T...]] | ["union", P, ts, [T...]]
+  P = [[key, J]...] ordered by key bytes;  J = null | true | false | ["i", "n"] | ["d", repr] | ["s", hex] | ["a", [J...]]
+      | ["o", [[key, J]...]] (a dict in its own order)
 """
 import importlib.util
 import json
@@ -67,6 +78,37 @@ def jtext(v):
     raise TypeError(type(v))
 
 
+DTYPE_NAMES = ["bool", "int8", "int16", "int32", "int64", "uint8", "uint16", "uint32", "uint64", "float16", "float32",
+               "float64", "float128", "complex64", "complex128", "complex256", "datetime64", "timedelta64"]
+
+
+def hx(s):
+    return s.encode('utf-8', 'surrogateescape').hex()
+
+
+def jtree(v):
+    if v is None or v is True or v is False:
+        return v
+    if isinstance(v, int):
+        return ['i', str(v)]
+    if isinstance(v, float):
+        return ['d', repr(v)]
+    if isinstance(v, str):
+        return ['s', hx(v)]
+    if isinstance(v, (list, tuple)):
+        return ['a', [jtree(x) for x in v]]
+    if isinstance(v, dict):
+        return ['o', [[hx(k), jtree(x)] for k, x in v.items()]]
+    raise TypeError(type(v))
+
+
+def int64_arg(v):
+    """pybind11's caster for an int64_t argument"""
+    if isinstance(v, bool) or not isinstance(v, int) or not (-2 ** 63 <= v < 2 ** 63):
+        raise TypeError('incompatible constructor arguments')
+    return v
+
+
 def isname(v):
     if not isinstance(v, str) or not v:
         return False
@@ -109,11 +151,21 @@ class Type(object):
     def _children(self):
         return []
 
+    def _ptree(self):
+        ps = sorted(self.parameters.items(), key=lambda kv: kv[0].encode('utf-8', 'surrogateescape'))
+        return [[hx(k), jtree(v)] for k, v in ps]
+
+    def tree(self):
+        return [self.TAG, self._ptree(), hx(self.typestr)] + self._tree_rest()
+
 
 class ArrayType(Type):
     def __init__(self, type, length, parameters=None, typestr=None):
         self._init(parameters, typestr)
-        self.type, self.length = type, length
+        self.type, self.length = type, int64_arg(length)
+
+    def tree(self):
+        return ['array', str(self.length), self.type.tree()]
 
     def __str__(self):
         if self.typestr:
@@ -130,9 +182,14 @@ class ArrayType(Type):
 
 
 class ListType(Type):
+    TAG = 'list'
+
     def __init__(self, type, parameters=None, typestr=None):
         self._init(parameters, typestr)
         self.type = type
+
+    def _tree_rest(self):
+        return [self.type.tree()]
 
     def _body(self):
         if self._params_empty():
@@ -144,9 +201,14 @@ class ListType(Type):
 
 
 class RegularType(Type):
+    TAG = 'reg'
+
     def __init__(self, type, size, parameters=None, typestr=None):
         self._init(parameters, typestr)
-        self.type, self.size = type, size
+        self.type, self.size = type, int64_arg(size)
+
+    def _tree_rest(self):
+        return [str(self.size), self.type.tree()]
 
     def _body(self):
         if self._params_empty():
@@ -158,9 +220,14 @@ class RegularType(Type):
 
 
 class OptionType(Type):
+    TAG = 'opt'
+
     def __init__(self, type, parameters=None, typestr=None):
         self._init(parameters, typestr)
         self.type = type
+
+    def _tree_rest(self):
+        return [self.type.tree()]
 
     def _body(self):
         if self._params_empty():
@@ -174,9 +241,14 @@ class OptionType(Type):
 
 
 class UnionType(Type):
+    TAG = 'union'
+
     def __init__(self, types, parameters=None, typestr=None):
         self._init(parameters, typestr)
         self.types = list(types)
+
+    def _tree_rest(self):
+        return [[t.tree() for t in self.types]]
 
     def _body(self):
         out = 'union[' + ', '.join(str(t) for t in self.types)
@@ -189,6 +261,11 @@ class UnionType(Type):
 
 
 class RecordType(Type):
+    TAG = 'rec'
+
+    def _tree_rest(self):
+        return [None if self.keys is None else [hx(k) for k in self.keys], [t.tree() for t in self.types]]
+
     def __init__(self, types, keys=None, parameters=None, typestr=None):
         if isinstance(types, dict):           # the py::dict overload: (types, parameters, typestr)
             parameters, typestr = keys, parameters
@@ -221,9 +298,16 @@ class RecordType(Type):
 
 
 class PrimitiveType(Type):
+    TAG = 'num'
+
     def __init__(self, dtype, parameters=None, typestr=None):
+        if dtype not in DTYPE_NAMES:
+            raise ValueError('unrecognized primitive type: ' + str(dtype))
         self._init(parameters, typestr)
-        self.dtype = dtype
+        self.dtype = str(dtype)
+
+    def _tree_rest(self):
+        return [self.dtype]
 
     def _body(self):
         if self._params_empty():
@@ -232,8 +316,13 @@ class PrimitiveType(Type):
 
 
 class UnknownType(Type):
+    TAG = 'unk'
+
     def __init__(self, parameters=None, typestr=None):
         self._init(parameters, typestr)
+
+    def _tree_rest(self):
+        return []
 
     def _body(self):
         if self._params_empty():
@@ -270,6 +359,8 @@ def main():
         ln = ln.strip()
         if not ln:
             continue
+        if ln[0] == 'x':                    # "x" + hex: lets the empty string through
+            ln = ln[1:]
         s = bytes.fromhex(ln).decode('utf-8', 'surrogateescape')
         out = {}
         for mode in (False, True):
@@ -277,7 +368,8 @@ def main():
             try:
                 t = from_datashape(s, mode)
                 out[key] = dict(ok=True, same=(str(t) == s), str=str(t), cls=type(t).__name__,
-                                arraytype=bool(t.has_arraytype()) if hasattr(t, 'has_arraytype') else False)
+                                arraytype=bool(t.has_arraytype()) if hasattr(t, 'has_arraytype') else False,
+                                tree=t.tree())
             except BaseException as e:     # Lark errors, AssertionError, ...
                 out[key] = dict(ok=False, exc=type(e).__name__)
         print(json.dumps(out))
